@@ -164,6 +164,13 @@ func (c *emuCircuit[B, S]) Define(api frontend.API) error {
 // caller can supply, since witness elements are only width-checked per limb).
 // ok=false when the value does not fit the limbs.
 func scalarElem[S emulated.FieldParams](v *big.Int) (emulated.Element[S], bool) {
+	return scalarElemW[S](v, false)
+}
+
+// scalarElemW: with allowWide the value may use all the bits of the limbs.  Such
+// a value is not an element of the type (see below); it is only built for the
+// cases that are executed without a verdict (emuCase.Wide).
+func scalarElemW[S emulated.FieldParams](v *big.Int, allowWide bool) (emulated.Element[S], bool) {
 	var fp S
 	w := fp.BitsPerLimb()
 	n := int(fp.NbLimbs())
@@ -171,7 +178,7 @@ func scalarElem[S emulated.FieldParams](v *big.Int) (emulated.Element[S], bool) 
 	// (top limb: ((bits(modulus)-1) mod w)+1 bits, enforceWidth(a, true)); the
 	// test engine only looks at the width of the single limbs, so a wider value
 	// would be an input that no compiled circuit accepts
-	if v.Sign() < 0 || v.BitLen() > n*int(w) || v.BitLen() > fp.Modulus().BitLen() {
+	if v.Sign() < 0 || v.BitLen() > n*int(w) || (!allowWide && v.BitLen() > fp.Modulus().BitLen()) {
 		return emulated.Element[S]{}, false
 	}
 	mask := new(big.Int).Sub(new(big.Int).Lsh(big.NewInt(1), w), big.NewInt(1))
@@ -199,6 +206,7 @@ type emuCase struct {
 	Ks       []*big.Int
 	Class    string // input class label (for counters and samples)
 	InDomain bool   // documented domain => must be satisfiable and correct
+	Wide     bool   // a scalar is wider than the modulus: not an element of the type, executed without verdict
 	Want     wpt    // oracle result (for AssertIsOnCurve: unused)
 	WantSat  bool   // for predicate ops
 	Native   *big.Int
@@ -250,7 +258,7 @@ func buildEmu[B, S emulated.FieldParams](c *emuCase, withSink bool) (frontend.Ci
 		if i < len(c.Ks) {
 			k = c.Ks[i]
 		}
-		e, ok := scalarElem[S](k)
+		e, ok := scalarElemW[S](k, c.Wide)
 		if !ok {
 			return nil, nil, nil, false
 		}
